@@ -225,6 +225,28 @@ func expandRepl(r string) string {
 	return b.String()
 }
 
+// replInDomain: every $<digits> of r names one of the pattern's groups.
+func replInDomain(r string, groups int) bool {
+	for i := 0; i < len(r); i++ {
+		if r[i] != '$' {
+			continue
+		}
+		j := i + 1
+		n := 0
+		for j < len(r) && r[j] >= '0' && r[j] <= '9' {
+			n = n*10 + int(r[j]-'0')
+			j++
+		}
+		if j == i+1 {
+			return false // a bare $ is not generated; be conservative
+		}
+		if n < 1 || n > groups {
+			return false
+		}
+	}
+	return true
+}
+
 func q(s string) string { return "'" + s + "'" }
 
 // regexDoc is the little document regex operations read their operands from.
@@ -307,6 +329,11 @@ func (m *cacheModel) opRegex(step int, st scn.Step, owner int32) string {
 		return "invalid"
 	}
 	re := regexp.MustCompile(st.K)
+	if st.Op == "replace" && !replInDomain(st.R, re.NumSubexp()) {
+		// a $n naming a group the pattern does not have: executed (it is legal
+		// history for later calls) but not judged
+		return "unjudged:" + got.Key()
+	}
 	var want Outcome
 	if st.Op == "matches" {
 		want = valueOutcome(re.MatchString(st.S))
